@@ -43,6 +43,7 @@ fn main() {
             "C12" => checks::c12::replay(&ctx, body),
             "C02" => checks::c02::replay(&ctx, body),
             "C03" => checks::c03::replay(&ctx, body),
+            "C04" => checks::c04::replay(&ctx, body),
             "C05" => checks::c05::replay(&ctx, body),
             "C06" => checks::c06::replay(&ctx, body),
             "C07" => checks::c07::replay(&ctx, body),
@@ -65,6 +66,7 @@ fn main() {
             "C12" => checks::c12::run(&ctx),
             "C02" => checks::c02::run(&ctx),
             "C03" => checks::c03::run(&ctx),
+            "C04" => checks::c04::run(&ctx),
             "C05" => checks::c05::run(&ctx),
             "C06" => checks::c06::run(&ctx),
             "C07" => checks::c07::run(&ctx),
